@@ -27,9 +27,9 @@ CLAIMED.update({
  'C10': dict(cat='proof', technique='SMT verification conditions over the reals generated from the extracted code, libm as uninterpreted functions with ground axiom instances (z3/cvc5 portfolio)',
    text='Normalisers (range and congruence mod 2*pi for |val| < 4*pi), planar angle<->matrix pair (both directions), rotation3DToEulerAngles applied to Rz*Ry*Rx returns the angles mod 2*pi (|pitch| < pi/2), SmartRotation3D::R equals Rz*Ry*Rx entry by entry, is orthonormal with determinant 1, polar and spherical <-> Cartesian round trips: each an unbounded statement over all real inputs, one discharged query per clause.',
    note=TB_B + '; NOT covered: the Eigen quaternion/AngleAxis route, general R->angles->R, float narrowing (see specs/C10/meta.json)', ref='DESIGN.md 4 (C10)'),
- 'C12': dict(cat='proof', technique='SMT verification conditions: extracted derivative matrices against the formal derivative (symalg) of the reported rotation',
-   text='All 27 entries of dR/droll, dR/dpitch, dR/dyaw are compared with the formal derivative of the corresponding entry of the reported R (= Rz*Ry*Rx, proved): 17 entries are discharged, 10 are refuted and listed as known findings (pinned by the existing tests); dRTdAngles(T) is proved to be (dR/da)*T column by column.',
-   note=TB_B + '; NOT covered: pose Jacobian of operator*(Affine3d, Pose3D), LeastSquares::computeEstimateCovariance (see specs/C12/meta.json)', ref='DESIGN.md 4 (C12)'),
+ 'C12': dict(cat='proof', technique='SMT / exact-polynomial verification conditions: extracted derivative matrices and the extracted 6x6 pose Jacobian against formal derivatives (symalg) of the code\'s own rotation and pose map',
+   text='All 27 entries of dR/droll, dR/dpitch, dR/dyaw against the formal derivative of the reported R (= Rz*Ry*Rx, proved): 17 discharged, 10 refuted = known findings pinned by the existing tests; dRTdAngles(T) = (dR/da)*T. operator*(Affine3d, Pose3D): covariance\' = J cov J^T for the code\'s J (proved), and all 36 entries of J against the Jacobian of the library\'s own pose map: 19 discharged (zero blocks, d roll/d roll, one sign), 17 entries (19 obligations) refuted = known findings with native failing inputs.',
+   note=TB_B + '; tools/polyid.py (sympy) as fourth portfolio member; NOT covered: LeastSquares::computeEstimateCovariance (dynamic-size Eigen, see specs/C12/meta.json)', ref='DESIGN.md 4 (C12), 9'),
  'C01': dict(cat='proof', technique='SMT verification conditions over the reals generated from the extracted code; fixed-point loop summarised (partial correctness); lemma + generalisation steps',
    text='Forward map proved to be foot point + h * unit normal with the foot point on the ellipsoid and the ellipsoid normal parallel to (cos lat cos lon, cos lat sin lon, sin lat); inverse on the image of the forward map: longitude recovered exactly, the true latitude is a fixed point of the iteration map, height recovered at the fixed point, latitude in (-pi/2, pi/2), longitude in (-pi, pi], all divisions / square roots defined.',
    note=TB_B + '; tolerances (1e-9 rad, 1 mm), rounding, loop termination and uniqueness of the fixed point are not decided (exact arithmetic, partial correctness)', ref='DESIGN.md 4 (C01)'),
